@@ -127,7 +127,10 @@ type Exec struct {
 	// User data for harnesses.
 	Data any
 
-	chooseCtl int
+	chooseCtl  int
+	deadlocked bool
+	// TeardownDeadlock is set when, after the controlled part, a goroutine could not acquire a mutex at all.
+	TeardownDeadlock string
 }
 
 var cur atomic.Pointer[Exec]
@@ -607,6 +610,16 @@ func (x *Exec) loop() {
 			}
 			x.mu.Unlock()
 			x.Stuck = "no enabled choice: " + strings.Join(sb, ",")
+			x.mu.Lock()
+			dl := x.findDeadlock(ths)
+			x.mu.Unlock()
+			if dl != "" {
+				// a lock that can never be granted: the calls waiting for it never return
+				x.deadlocked = true
+				if x.Violation == nil {
+					x.Violation = fmt.Errorf("deadlock: %s", dl)
+				}
+			}
 			return
 		}
 		costs[0] = 0
@@ -657,6 +670,38 @@ func (x *Exec) loop() {
 	}
 }
 
+// findDeadlock looks, among the threads parked at a mutex acquire, for one whose wait can never end:
+// the mutex is held by the thread itself, by a thread that has exited, or by a thread that is in turn
+// waiting (through any number of steps) for a mutex the first one holds. x.mu is held.
+func (x *Exec) findDeadlock(ths []*Thread) string {
+	waitsFor := func(t *Thread) *Thread {
+		if t == nil || t.done || !t.parked || t.pending == nil || t.pending.Mu == nil || x.opEnabled(t.pending) {
+			return nil
+		}
+		return t.pending.Mu.Owner // nil for a mutex only held by readers
+	}
+	for _, t := range ths {
+		o := waitsFor(t)
+		if o == nil || o == ctlThread {
+			continue
+		}
+		chain := []string{t.Name}
+		seen := map[*Thread]bool{t: true}
+		for o != nil && o != ctlThread {
+			if o == t || seen[o] {
+				return fmt.Sprintf("%s waits for %s held by %s (cycle: %s -> %s)", t.Name, x.muName(t.pending.Mu), t.pending.Mu.Owner.Name, strings.Join(chain, " -> "), o.Name)
+			}
+			if o.done {
+				return fmt.Sprintf("%s waits for a mutex held by %s, which has exited without releasing it (%s -> %s)", t.Name, o.Name, strings.Join(chain, " -> "), o.Name)
+			}
+			seen[o] = true
+			chain = append(chain, o.Name)
+			o = waitsFor(o)
+		}
+	}
+	return ""
+}
+
 // Harness describes a closed system to explore.
 type Harness struct {
 	Name string
@@ -703,6 +748,11 @@ func Run(t *testing.T, h *Harness, prefix []Choice) (res *Result) {
 	defer func() {
 		if r := recover(); r != nil {
 			fill()
+			if x != nil && x.deadlocked && res.Violation != nil {
+				// the bubble of a deadlocked execution ends with goroutines still blocked: expected
+				cur.Store(nil)
+				return
+			}
 			res.EngineErr = fmt.Errorf("engine: %v", r)
 			cur.Store(nil)
 			if os.Getenv("VERIF_DEBUG") != "" {
@@ -755,11 +805,21 @@ func Run(t *testing.T, h *Harness, prefix []Choice) (res *Result) {
 		}
 		// From here on the model state is meaningless; the real mutexes (kept in
 		// step with the model all along) take over and every thread runs free.
-		x.free.Store(true)
+		if x.deadlocked {
+			// the threads of a deadlocked execution can never finish: they are unwound (Goexit at their
+			// gates, deferred unlocks run) and whatever stays blocked is abandoned with the bubble
+			x.aborting.Store(true)
+		} else {
+			x.free.Store(true)
+		}
 		x.mu.Lock()
 		for _, th := range x.sortedThreads() {
 			if th.parked && !th.done {
-				x.release(th, 0)
+				if x.deadlocked {
+					x.release(th, 1)
+				} else {
+					x.release(th, 0)
+				}
 			}
 		}
 		x.mu.Unlock()
@@ -769,7 +829,7 @@ func Run(t *testing.T, h *Harness, prefix []Choice) (res *Result) {
 					x.Violation = fmt.Errorf("panic in teardown: %v\n%s", r, stack())
 				}
 			}()
-			if h.Teardown != nil {
+			if h.Teardown != nil && !x.deadlocked {
 				h.Teardown(x)
 			}
 		}()
@@ -791,6 +851,9 @@ func Run(t *testing.T, h *Harness, prefix []Choice) (res *Result) {
 			time.Sleep(x.Horizon + time.Hour)
 		}
 		synctest.Wait()
+		if x.TeardownDeadlock != "" && x.Violation == nil {
+			x.Violation = fmt.Errorf("deadlock: after the controlled part of the execution a goroutine waited for a mutex that was never released: %s", x.TeardownDeadlock)
+		}
 		if h.Final != nil && x.Violation == nil && x.EngineErr == nil {
 			func() {
 				defer func() {
@@ -895,6 +958,28 @@ func MuUnlock(m *MuState, read bool) {
 
 // Abandoning reports whether the current execution is being abandoned (threads
 // unwind with Goexit and mutual exclusion is no longer maintained).
+// FreeMode reports whether a controlled execution is in its teardown, where every thread runs free.
+func FreeMode() bool {
+	x := cur.Load()
+	return x != nil && x.free.Load()
+}
+
+// GiveUp is called by the mutex shim in teardown when a goroutine has waited for a mutex for hours of
+// virtual time: the mutex will never be released. The goroutine is unwound (deferred unlocks run) so
+// that the process survives, and the execution is marked.
+func GiveUp(what string) {
+	x := cur.Load()
+	if x == nil {
+		return
+	}
+	x.mu.Lock()
+	if x.TeardownDeadlock == "" {
+		x.TeardownDeadlock = what + "\n" + stack()
+	}
+	x.mu.Unlock()
+	runtime.Goexit()
+}
+
 func Abandoning() bool {
 	x := cur.Load()
 	return x != nil && x.aborting.Load()
